@@ -259,6 +259,12 @@ def s_iter_count(e, st, callee, args, dty):
 
 def s_iter_sum_lens(e, st, callee, args, dty):
     l = as_list(e, st, args[0])
+    if l is not None and l.items and all(isinstance(x, Agg) and len(x.fields) == 1 and isinstance(x.fields.get(0), Int) for x in l.items):
+        # a newtype around an integer (FileLen): the sum of the wrapped values
+        t = z3.BitVecVal(0, 64)
+        for x in l.items:
+            t = t + x.fields[0].t
+        return Agg(l.items[0].ty, {0: Int(z3.simplify(t), l.items[0].fields[0].ty)})
     if l is None or not all(isinstance(x, Int) for x in l.items):
         return NotImplemented
     t = z3.BitVecVal(0, 64)
